@@ -6,7 +6,9 @@ set -u
 PATCH=$(readlink -f "$1"); shift
 TIER=${1:-quick}; shift || true
 IDS=${*:-$(seq -f 'C%02g' 1 20)}
-cd /verif
+# VERIF_TRIAL_DIR: run the checks from another checkout of /verif (so /verif can be edited meanwhile)
+V=${VERIF_TRIAL_DIR:-/verif}
+cd "$V"
 if [ -n "$(git -C /repo status --porcelain --untracked-files=no)" ]; then echo "/repo is not clean"; exit 2; fi
 restore() { git -C /repo checkout -- . ; }
 trap restore EXIT
@@ -16,7 +18,7 @@ TAG=$(basename "$(dirname "$PATCH")")_$(basename "$PATCH" .patch.diff)
 CAUGHT=""
 for id in $IDS; do
   s=$(date +%s)
-  VERIF_EVIDENCE_DIR=/verif/out/seed/evidence ./check $id --tier $TIER > out/seed/$TAG.$id.out 2> out/seed/$TAG.$id.err
+  VERIF_EVIDENCE_DIR="$V/out/seed/evidence" ./check $id --tier $TIER > out/seed/$TAG.$id.out 2> out/seed/$TAG.$id.err
   rc=$?
   e=$(date +%s)
   first=$(grep -m1 -A1 VIOLATION out/seed/$TAG.$id.out | head -1)
